@@ -47,6 +47,23 @@ def make_cases(rng, tier, n):
             ops = [("commit", rng.choice("lc"), [])]
             names = [sp for sp, st in c["stages"]]
         keep = [b"workdir", b"workdir/inner"] if c.get("cwd") else []
+        if not pipe and i % 20 == 15:
+            # a directory with MANY sub-directories on one level (32, 33, 40, 70), each holding a file of its own
+            d0 = [a for a in s1eval.artifacts(c) if a[1] == "d"]
+            if not d0:
+                c["init"].append(("dir", b"fan"))
+                c["stages"].append((b"fan.yaml", dict(cmd=b"", wd=b".", out=[(b"fan", "d")])))
+                d0 = [(b"fan", "d", b"fan.yaml")]
+                names = [sp for sp, st in c["stages"]]
+            nsub = [32, 33, 40, 70][(i // 20) % 4]
+            for j in range(nsub):
+                c["init"] += [("dir", d0[0][0] + b"/fan%02d" % j), ("file", d0[0][0] + b"/fan%02d/u.bin" % j, "g:%d:%d" % (300000 + 100 * i + j, 9 + j % 5))]
+            c["ops"] = [("commit", rng.choice("lc"), []), ("push", False, []), ("wipecache",), ("fetch", False, []), ("clone", keep),
+                        ("checkout", rng.choice("lc"), False, []), ("status", [])]
+            c["flow"] = "many_subdirs"
+            stats["flow_many_subdirs"] = stats.get("flow_many_subdirs", 0) + 1
+            cases.append(c)
+            continue
         if not pipe and i % 20 == 11:
             # a cache written by an early dud (untagged manifest schema) with directories nested in directories, each level holding a
             # file of its own: pushed, lost, fetched, checked out
